@@ -71,14 +71,13 @@ func (ex *Exec) mapStore(mt *types.Map, m Term, k Value, v Value) {
 	cardKey := base + "#card"
 	card := ex.heapGet(cardKey, ArrSort(SInt, SInt))
 	was := Sel(Sel(dom, m), kt)
-	ex.heapSet(cardKey, Sto(card, m, Ite(was, Sel(card, m), Add(Sel(card, m), I(1)))))
-	ex.heapSet(domKey, Sto(dom, m, Sto(Sel(dom, m), kt, TTrue)))
+	ex.hStore1(cardKey, ArrSort(SInt, SInt), m, Ite(was, Sel(card, m), Add(Sel(card, m), I(1))))
+	ex.hStore2(domKey, ArrSort(SInt, ArrSort(ks, SBool)), m, kt, TTrue)
 	ts := ex.flatten(v)
 	for i, l := range leavesOf(mt.Elem()) {
 		ls := leafSortFix(ex, l)
 		key := base + "#val" + l.path
-		h := ex.heapGet(key, ArrSort(SInt, ArrSort(ks, ls)))
-		ex.heapSet(key, Sto(h, m, Sto(Sel(h, m), kt, ts[i])))
+		ex.hStore2(key, ArrSort(SInt, ArrSort(ks, ls)), m, kt, ts[i])
 	}
 }
 
@@ -91,8 +90,8 @@ func (ex *Exec) mapDelete(mt *types.Map, m Term, k Value) {
 	cardKey := base + "#card"
 	card := ex.heapGet(cardKey, ArrSort(SInt, SInt))
 	was := And(Not(Eq(m, I(0))), Sel(Sel(dom, m), kt))
-	ex.heapSet(cardKey, Sto(card, m, Ite(was, Sub(Sel(card, m), I(1)), Sel(card, m))))
-	ex.heapSet(domKey, Sto(dom, m, Sto(Sel(dom, m), kt, TFalse)))
+	ex.hStore1(cardKey, ArrSort(SInt, SInt), m, Ite(was, Sub(Sel(card, m), I(1)), Sel(card, m)))
+	ex.hStore2(domKey, ArrSort(SInt, ArrSort(ks, SBool)), m, kt, TFalse)
 }
 
 func (ex *Exec) mapInitEmpty(mt *types.Map, r Term) {
@@ -101,10 +100,10 @@ func (ex *Exec) mapInitEmpty(mt *types.Map, r Term) {
 	domKey := base + "#dom"
 	dom := ex.heapGet(domKey, ArrSort(SInt, ArrSort(ks, SBool)))
 	empty := Term{fmt.Sprintf("((as const %s) false)", ArrSort(ks, SBool)), ArrSort(ks, SBool)}
-	ex.heapSet(domKey, Sto(dom, r, empty))
+	_ = dom
+	ex.hStoreRow(domKey, ArrSort(SInt, ArrSort(ks, SBool)), r, empty)
 	cardKey := base + "#card"
-	card := ex.heapGet(cardKey, ArrSort(SInt, SInt))
-	ex.heapSet(cardKey, Sto(card, r, I(0)))
+	ex.hStore1(cardKey, ArrSort(SInt, SInt), r, I(0))
 	// make sure value arrays exist so that loops havoc them
 	for _, l := range leavesOf(mt.Elem()) {
 		ex.heapGet(base+"#val"+l.path, ArrSort(SInt, ArrSort(ks, leafSortFix(ex, l))))
